@@ -422,15 +422,16 @@ private:
            , typename View
            >
    void read_data( const View& dst_view
-                 , int         /* plane */ )
+                 , int         plane )
     {
+        // plane: the sample plane to read (files with PLANARCONFIG_SEPARATE), 0 otherwise
         if( this->_io_dev.is_tiled() )
         {
-            read_tiled_data< Buffer >( dst_view, 0 );
+            read_tiled_data< Buffer >( dst_view, plane );
         }
         else
         {
-            read_stripped_data< Buffer >( dst_view, 0 );
+            read_stripped_data< Buffer >( dst_view, plane );
         }
     }
 
